@@ -85,6 +85,8 @@ type Func struct {
 	// filled by the renderer
 	LineDefined     int
 	LastLineDefined int
+	DefFirst        int // line of the `function` keyword
+	DefLast         int // line of the `)` closing the parameter list
 	// UsesVararg is set by the generator/analysis when the body mentions `...`
 	// (decides whether the compatibility `arg` table exists).
 	UsesVararg bool
